@@ -6,7 +6,10 @@ CHECK = {
         "bodies are driven by scripted in-memory fakes (io.ReadCloser, http.RoundTripper, http.ResponseWriter); the real net/http transports are not in the loop",
         "streams are truncations of sequences of at most 3 envelopes, flags in {0,1,2,3,0x80,0x81}, payload length in {0,1,3}; end-stream payloads of 7 and 16 bytes of text in the encodings absent/identity/gzip/zstd/unknown",
         "end-stream flags: Connect streaming 0x02, gRPC-Web 0x80; combinations the protocols do not define (0x80 under Connect, 0x02 under gRPC-Web, any under gRPC, compressed bit with an unknown encoding or an undecodable payload, empty end-stream payload) and a cut exactly between prefix and payload leave the respective event unconstrained",
-        "stdlib compress/gzip and klauspost zstd are trusted to build compressed payloads and to decode them in the reference model",
+        "stdlib compress/gzip, compress/zlib, klauspost zstd, andybalholm brotli and golang/snappy are trusted to build compressed payloads and to decode them in the reference model (the libraries themselves, not the wrappers of internal/compression); a payload these decoders reject, also after having produced output, counts as undecodable",
+        "content-coding names are case-insensitive (RFC 9110 section 8.4.1): the reference model treats gzip / GZIP / Gzip / gZIP alike, for every supported encoding and identity",
+        "stage H (histories): what the trace says about a body must not depend on what the process traced before. Pairs (first, second) are traced back to back on one goroutine with GOMAXPROCS(1) and the collector off (debug.SetGCPercent(-1)) for the pair, so hand-off through process-wide state (package variables, sync.Pool) is deterministic; histories longer than two bodies and concurrent bodies are not enumerated (pairs of one shard do follow each other in one process, and a finding that needs more than the pair is reported with the shortest reproducing suffix of the shard's history)",
+        "stage H first bodies: complete compressed end-stream envelopes (Connect 0x03, gRPC-Web 0x81; texts of 29 / 40 bytes) in gzip, zstd, br, deflate, snappy whose payload is cut at every byte position (envelope length adjusted), has one byte altered at every position (+1, ^0xff; thorough also ^0x01, ^0x80), has a trailing byte or is in another encoding than negotiated (damaged zstd payloads that declare a decoded or window size above 16 MiB are left out: the zstd library allocates the declared size up front, up to 2 GiB for a 42-byte payload, which concerns the decompressor, not tracing); every truncation of a valid two-message stream under every ending on all four sides; valid bodies. Second bodies: valid two-message streams, encoding absent / identity / each supported one, compressed bit set and unset, Connect and gRPC-Web, client response and server response",
     ],
     "manifest": {
         "engine": "ENUM",
@@ -18,18 +21,28 @@ CHECK = {
                 "failing Close; handler return, failing and short write, handler panic). The trace handed to a fake Collector is compared with a whole-buffer "
                 "reference parse (data events with exact flags / declared length / consecutive indices, end-stream content decompressed iff bit 0, "
                 "single final body-end event with the final error, partial event with the byte count seen), with the events of the one-call "
-                "composition (chunking independence), and everything the application and its peer observe is compared byte for byte with a run without tracing.",
+                "composition (chunking independence), and everything the application and its peer observe is compared byte for byte with a run without tracing. "
+                "Before that enumeration two cheap stages run in the same unit. Stage H (histories): every pair (first body, second body) with first from ~5.9k (quick) damaged / cut / failing / valid bodies "
+                "(compressed end-stream payloads of all five encodings cut and altered at every byte position, trailing garbage, wrong encoding; every truncation x ending x side of a valid stream) and second from 56 valid bodies "
+                "(all encodings, compressed bit set/unset, Connect and gRPC-Web, client response and server response) is traced back to back in one process state (one P, no GC in between): both bodies are judged "
+                "by the same reference model and untraced run, and the second body's events must equal those of the same body traced in the fresh process (history independence; ~331k pairs quick, ~2.2M thorough). "
+                "Stage S (shape): the encoding header value in lower / UPPER / Title / mIXED case for identity and every supported encoding, in Connect-Content-Encoding, Grpc-Encoding (gRPC-Web and gRPC) and Content-Encoding, "
+                "with compressed and uncompressed end-stream message, with and without a leading message, response and request sides, in <= 2 pieces (thorough 3) plus all-1-byte; plus every truncation of such streams for br, deflate, snappy "
+                "(~265k cases quick); oracle: the same reference model (content decompressed iff bit 0, names case-insensitive).",
         "note": "Scripted fakes instead of sockets; bounds as stated; undefined flag/encoding combinations unconstrained; HTTP/2 frame tracing is C15.",
         "design_ref": "DESIGN.md §2.2, §4 C14",
     },
     "units": [
         {
             "name": "c14-enum", "pkg": TR,
-            "harness": ["tracer/c14_test.go"],
+            "harness": ["tracer/c14_test.go", "tracer/c14_history_test.go"],
             "test": "^TestVerifC14$",
             "shards": {"quick": 16, "thorough": 16},
             # measured: 41.0M cases quick ~ 10 CPU-min, 311M cases thorough ~ 80 CPU-min (under contention); on 16 idle
             # cores about 35 s / 5 min. The soft budgets leave room for a loaded machine (exhaustive:false, exit 0 if hit).
+            # Stages H and S (c14_history_test.go) run first inside TestVerifC14: quick 331k pairs + 265k cases,
+            # about 1.3 + 1.1 CPU-s per shard of 16 (about 40 CPU-s in all; thorough 11 + 12 CPU-s per shard), so a
+            # budget hit in the heavy part cannot starve them. They lower GOGC to 100 for their duration (footprint).
             "budget_s": {"quick": 120, "thorough": 1200},
             # allocation-heavy, tiny live heap: fewer GC cycles (performance only)
             "env": {"GOGC": "800"},
